@@ -265,6 +265,108 @@ def main():
                 direct.append({"law": "normal form on a table with a nested sequence", "scenario": j, "got": got, "want": want})
         except Exception as e:  # noqa
             direct.append({"law": "normal form on a table with a nested sequence", "scenario": j, "error": repr(e)})
+    # generated chains on the nested table: filters on outer and on inner columns, column selections, child selections (the inner
+    # sequence, then its own columns / children), record indices and slices, in any order; reference by NAME: all filters first
+    # (an inner-column filter filters the inner rows of every record), then the selections in order, then the slices in order
+    import operator as _op
+    PY = {">": _op.gt, ">=": _op.ge, "<": _op.lt, "<=": _op.le, "=": _op.eq, "!=": _op.ne}
+
+    def gen_nested_chain():
+        ch, level, vis, ivis = [], 0, ["id", "in", "z"], ["x", "y"]
+        for _ in range(rng.randint(1, 6)):
+            kinds_ = ["slice", "int"]
+            if level == 0:
+                kinds_ += ["ofilt", "ifilt", "cols", "child", "ofilt", "ifilt"]
+            elif level == 1:
+                kinds_ += ["ifilt", "icols", "ichild", "ofilt"]
+            k = rng.choice(kinds_)
+            if k == "ofilt":
+                ch.append(("ofilt", rng.choice(["id", "z"]), rng.choice(list(PY)), rng.choice([0, 1, 2, 3, 7, 8, 9])))
+            elif k == "ifilt":
+                ch.append(("ifilt", rng.choice(["x", "y"]), rng.choice(list(PY)), rng.choice([10, 11, 15, 20, 21, 30, 31])))
+            elif k == "cols":
+                vis = rng.sample(vis, rng.randint(1, len(vis)))
+                ch.append(("cols", tuple(vis)))
+            elif k == "child":
+                c = rng.choice(vis)
+                ch.append(("child", c))
+                level = 1 if c == "in" else 3
+            elif k == "icols":
+                ivis = rng.sample(ivis, rng.randint(1, len(ivis)))
+                ch.append(("icols", tuple(ivis)))
+            elif k == "ichild":
+                ch.append(("ichild", rng.choice(ivis)))
+                level = 2
+            elif k == "slice":
+                ch.append(("slice", slice(rng.choice([None, 0, 1]), rng.choice([None, 1, 2, 5]), rng.choice([None, 1, 2]))))
+            else:
+                ch.append(("int", rng.randint(0, 3)))
+        return ch
+
+    def nested_reference(ch):
+        recs = [{"id": a, "in": [{"x": x, "y": y} for x, y in b], "z": c} for a, b, c in nrows]
+        for o in ch:
+            if o[0] == "ofilt":
+                recs = [rc for rc in recs if PY[o[2]](rc[o[1]], o[3])]
+            elif o[0] == "ifilt":
+                recs = [dict(rc, **{"in": [ir for ir in rc["in"] if PY[o[2]](ir[o[1]], o[3])]}) for rc in recs]
+        vis, ivis, level, child, ichild = ["id", "in", "z"], ["x", "y"], 0, None, None
+        for o in ch:
+            if o[0] == "cols":
+                vis = list(o[1])
+            elif o[0] == "child":
+                child = o[1]
+            elif o[0] == "icols":
+                ivis = list(o[1])
+            elif o[0] == "ichild":
+                ichild = o[1]
+
+        def inner(rows_):
+            if ichild is not None:
+                return [ir[ichild] for ir in rows_]
+            return [[ir[c] for c in ivis] for ir in rows_]
+        if child is None:
+            out = [[inner(rc[c]) if c == "in" else rc[c] for c in vis] for rc in recs]
+        elif child == "in":
+            out = [inner(rc["in"]) for rc in recs]
+        else:
+            out = [rc[child] for rc in recs]
+        for o in ch:
+            if o[0] == "slice":
+                out = out[o[1]]
+            elif o[0] == "int":
+                out = out[o[1]:o[1] + 1]
+        return out
+
+    def nested_apply(d, o):
+        if o[0] == "ofilt":
+            left = nd[o[1]]
+            return d[{">": left > o[3], ">=": left >= o[3], "<": left < o[3], "<=": left <= o[3], "=": left == o[3], "!=": left != o[3]}[o[2]]]
+        if o[0] == "ifilt":
+            left = nd["in"][o[1]]
+            return d[{">": left > o[3], ">=": left >= o[3], "<": left < o[3], "<=": left <= o[3], "=": left == o[3], "!=": left != o[3]}[o[2]]]
+        if o[0] in ("cols", "icols"):
+            return d[list(o[1])]
+        if o[0] in ("child", "ichild"):
+            return d[o[1]]
+        return d[o[1]]
+    nested_stats = {"chains": 0, "after_child_filter": 0}
+    for _ in range(150 if T == "quick" else 3000):
+        ch = gen_nested_chain()
+        nested_stats["chains"] += 1
+        r.count(("nested-chain", repr(ch)))
+        try:
+            d = nd
+            for o in ch:
+                d = nested_apply(d, o)
+            got, again = plain(list(d)), plain(list(d))
+            want = nested_reference(ch)
+            if got != want or again != want:
+                direct.append({"law": "normal form on a table with a nested sequence (generated chain)", "chain": repr(ch), "got": got,
+                               "again": again, "want": want})
+        except Exception as e:  # noqa
+            direct.append({"law": "normal form on a table with a nested sequence (generated chain)", "chain": repr(ch), "error": repr(e)[:300]})
+    r.extra["nested"] = nested_stats
     try:
         final = plain(list(nd))
     except Exception as e:  # noqa
